@@ -189,7 +189,10 @@ def run(ctx: common.Ctx) -> None:
                     if st.get("triggered") and ntarg:
                         ctx.nontriv(tuple(ops), st["mode"], t["_follow"], min(ntarg, 6), tuple(st.get("updated_modules") or [])[:3])
                     if st.get("consistency", "ok") not in ("ok",) and str(st.get("consistency")).startswith("FAILED"):
-                        ctx.violation("mergecheck-inconsistent-ast", st["consistency"], {"task": t, "step": st["i"]})
+                        # observation only: mypy.server.mergecheck is a debugging aid the repository's own tests keep switched
+                        # off (CHECK_CONSISTENCY = False); it fires on most histories of the unchanged tree and says nothing
+                        # about responses
+                        ctx.cell("mergecheck-reports-duplicate-ast-nodes")
                     dm = st.get("deps_monitor")
                     if dm:
                         ctx.extra["deps_monitor_edges_checked"] = ctx.extra.get("deps_monitor_edges_checked", 0) + dm.get("edges", 0)
